@@ -94,3 +94,23 @@ package markers
 //@   requires typeis(err, *withMark)
 //@   ensures result0 == "" && len(result1) == 0
 //@   ensures typeis(result2, *errorspb.MarkPayload) && result2.(*errorspb.MarkPayload).Msg == err.(*withMark).mark.msg && result2.(*errorspb.MarkPayload).Types == err.(*withMark).mark.types
+
+// ---- If: first layer of the visible chain accepted by a (pure) predicate (C07, C11) ----
+//@ spec func ifOk(e error, pred func(error) (any, bool)) bool
+//@ unfold ifOk(e, pred) = e != nil && (callres1(pred, e) || ifOk(cause1(e), pred))
+//@ spec func ifVal(e error, pred func(error) (any, bool)) any
+//@ unfold ifVal(e, pred) = e == nil ? nil : (callres1(pred, e) ? callres0(pred, e) : ifVal(cause1(e), pred))
+
+//@ func If
+//@   props C07 C11 C20
+//@   purefn pred
+//@   requires pred != nil
+//@   ensures result1 == ifOk(err, pred)
+//@   ensures result1 ==> result0 == ifVal(err, pred)
+//@   ensures result1 ==> (exists k int :: 0 <= k && chainAt(err, k) != nil && callres1(pred, chainAt(err, k)) && result0 == callres0(pred, chainAt(err, k)) && (forall j int :: 0 <= j && j < k ==> chainAt(err, j) != nil && !callres1(pred, chainAt(err, j))))
+//@   ensures !result1 ==> (forall j int :: 0 <= j && j < chainLen(err) ==> !callres1(pred, chainAt(err, j)))
+//@   loop 1: ghost k int = 0 step k + 1
+//@           invariant ifOk(err, pred) == ifOk(c, pred)
+//@           invariant ifVal(err, pred) == ifVal(c, pred)
+//@           invariant k >= 0 && c == chainAt(err, k)
+//@           invariant forall j int :: 0 <= j && j < k ==> chainAt(err, j) != nil && !callres1(pred, chainAt(err, j))
